@@ -127,7 +127,7 @@ def rand_layout(r):
     base = r.choice([0, 0, 0, 0, 3, 16])
     blocks = []
     for i in range(k):
-        size = r.choice([0, 1, 2, 3, 5, 6, 7, 8, 12]) if r.random() < 0.85 else r.choice([0, 0, 1])
+        size = r.choice([1, 2, 3, 5, 6, 7, 8, 12]) if r.random() < 0.96 else 0
         blocks.append((base, rand_bytes(r, size)))
         base += size
         if r.random() < 0.3:
@@ -146,7 +146,7 @@ def gen_multiblock(r, tier, out, meta, ubcases):
         [(0, b"ab"), (2, b"cd"), (4, b"ef"), (6, b"gh")],
         [(0, b"ab"), (2, b"cd"), (5, b"ef"), (7, b"gh")],
     ]
-    nrand = 10 if tier == "quick" else 120
+    nrand = 24 if tier == "quick" else 400
     layouts = fixed + [rand_layout(r) for _ in range(nrand)]
     rot = 0
     for blocks in layouts:
@@ -191,7 +191,7 @@ def gen_cache(r, tier, out, meta):
                 out.append("%s %s %s" % (cid, blocks_tok(blocks), " ".join(cl)))
                 meta[cid] = "cache-orders"
     # long random histories with many distinct keys (bucket chains of the 17-bucket table get long)
-    nlong = 40 if tier == "quick" else 600
+    nlong = 60 if tier == "quick" else 3000
     for _ in range(nlong):
         blocks = r.choice(layouts)
         nk = r.choice([2, 3, 5, 9, 20])
@@ -228,7 +228,7 @@ def gen_strings(r, tier, out, meta):
     for n in range(1, maxlen + 1):
         for t in itertools.product(alpha, repeat=n):
             strs.append(bytes(t))
-    nrand = 150 if tier == "quick" else 3000
+    nrand = 200 if tier == "quick" else 12000
     for _ in range(nrand):
         strs.append(rand_bytes(r, r.choice([4, 5, 6, 6, 7, 11, 12, 13, 18, 24, 40])))
     # monte carlo: groups around the circle boundary, high bytes in every position
@@ -238,10 +238,32 @@ def gen_strings(r, tier, out, meta):
             g[pos] = v
             strs.append(bytes(g))
             strs.append(bytes(g) + bytes([0xb4, 0xff, 0xff, 0xb4, 0xff, 0xff]))
+    strs += mc_boundary_groups()
     calls = []
     for s in strs:
         calls += str_calls(r, s)
     lines_from_calls("st", [(0, b"x")], calls, out, meta, "string-args")
+    # the same boundary groups through the range form
+    for g in mc_boundary_groups():
+        lines_from_calls("st", [(0, g)], ["mc:0:%d" % len(g), "mc:0:6", "sc:0:%d" % len(g), "mean:0:6"], out, meta, "mc-boundary")
+
+
+def mc_boundary_groups():
+    """6-byte groups (x, y as 24-bit big-endian) on and next to the circle x^2 + y^2 = (2^24 - 1)^2."""
+    import math
+    R = 2 ** 24 - 1
+    gs = []
+    for x in (R, R - 1, 0, 1, 11863283, 11863282, 0x800000, 0x7fffff, 14529495, 3 * 2 ** 22):
+        y0 = math.isqrt(R * R - x * x)
+        for y in (y0 - 1, y0, y0 + 1, y0 + 2):
+            if 0 <= y <= R:
+                gs.append(x.to_bytes(3, "big") + y.to_bytes(3, "big"))
+                gs.append(y.to_bytes(3, "big") + x.to_bytes(3, "big"))
+    out = []
+    for i in range(0, len(gs), 2):
+        out.append(gs[i])
+        out.append(gs[i] + gs[i + 1])
+    return out
 
 
 def to_digits(v, base):
@@ -257,7 +279,7 @@ def to_digits(v, base):
 
 def gen_toint(r, tier, out, meta):
     cases = []
-    n = 500 if tier == "quick" else 8000
+    n = 800 if tier == "quick" else 40000
     specials = [0, 1, 7, 8, 9, 10, 15, 16, 31, 35, 36, 255, 2 ** 31, 2 ** 32, 2 ** 63 - 1, 2 ** 63, 2 ** 63 + 1, 2 ** 64, 2 ** 64 + 5, 10 ** 30]
     for _ in range(n):
         base = r.choice([0, 0, 0, 10, 16, 8, 2, 36, 3, 1, 37, -1, -10, 2 ** 32 + 10, 35])
@@ -319,7 +341,7 @@ def gen_scalars(r, tier, out, meta):
         for lo in fl[:9]:
             for hi in fl[:9]:
                 calls.append("inr:%d:%d:%d" % (t, lo, hi))
-    nrand = 100 if tier == "quick" else 3000
+    nrand = 150 if tier == "quick" else 10000
     for _ in range(nrand):
         a = r.choice([r.randrange(I64MIN + 1, I64MAX), r.randrange(-1000, 1000)])
         b = r.choice([r.randrange(I64MIN + 1, I64MAX), r.randrange(-1000, 1000), a, -a])
